@@ -73,6 +73,12 @@ Definition vsstep (l : list velem) (o : vop) : list velem * vobs N :=
     let rest := if ((st <? 0) || (Z.of_nat (length l) <=? st))%Z then [] else skipn (Z.to_nat st) l in
     (l, VOWalk (firstn n rest) (length rest <? n))
   end.
+(* the new element is a copy of what position j holds before the call *)
+Definition vs_addself (l : list velem) (index j : Z) : list velem * vobs N :=
+  match vacc_pos (length l) j with
+  | Some q => vs_add l index (nth q l [])
+  | None => (l, VORefused (vrefuse_acc l))
+  end.
 Fixpoint vsrun (l : list velem) (h : list vop) : list velem * list (vobs N) :=
   match h with
   | [] => (l, [])
